@@ -1700,13 +1700,29 @@ class InTablePhase(Phase):
             assert self.parser.innerHTML
         # Stop parsing
 
+    def currentNodeIsTableElement(self):
+        return self.tree.openElements[-1].name in ("table", "tbody", "tfoot",
+                                                   "thead", "tr")
+
     def processSpaceCharacters(self, token):
+        if not self.currentNodeIsTableElement():
+            # Table text is only collected while a table element is the
+            # current node; elsewhere (e.g. inside a foster-parented
+            # element) characters follow the "anything else" rule
+            insertFromTable = self.tree.insertFromTable
+            self.tree.insertFromTable = True
+            self.parser.phases["inBody"].processSpaceCharacters(token)
+            self.tree.insertFromTable = insertFromTable
+            return
         originalPhase = self.parser.phase
         self.parser.phase = self.parser.phases["inTableText"]
         self.parser.phase.originalPhase = originalPhase
         self.parser.phase.processSpaceCharacters(token)
 
     def processCharacters(self, token):
+        if not self.currentNodeIsTableElement():
+            self.insertText(token)
+            return
         originalPhase = self.parser.phase
         self.parser.phase = self.parser.phases["inTableText"]
         self.parser.phase.originalPhase = originalPhase
